@@ -3,7 +3,7 @@ wired into the minifier and into the two command-line entry points.
 
 T_minwiring_lua   (pico8/lua/lua.py): the body of MinifyNameFactory.get_short_name, the factory
                   construction in LuaMinifyTokenWriter.__init__ and the two get_short_name calls of
-                  LuaMinifyTokenWriter.to_lines (names, labels) - as ast.unparse text.
+                  LuaMinifyTokenWriter._minified_chunks (names, labels; to_lines only spaces the chunks) - as ast.unparse text.
 T_minwiring_tool  (pico8/tool.py): the lua_writer_args of luamin().
 T_minwiring_build (pico8/build/build.py): the writer-selection statement of do_build().
 Each text is pinned by a reflexivity lemma in Proofs/NameFactoryProofs.v: an edit of the wiring
@@ -56,7 +56,7 @@ def lua_extra(mod, tree, src):
 
     def gsn_call(k):
         def f():
-            fn = P.find_function(tree, 'LuaMinifyTokenWriter.to_lines')
+            fn = P.find_function(tree, 'LuaMinifyTokenWriter._minified_chunks')
             calls = [n for n in P.ordered_nodes(fn) if isinstance(n, ast.Call) and
                      isinstance(n.func, ast.Attribute) and n.func.attr == 'get_short_name']
             if len(calls) != 2:
@@ -66,7 +66,7 @@ def lua_extra(mod, tree, src):
 
     def branch_tests():
         # the tests of the token-class dispatch that lead to the two calls
-        fn = P.find_function(tree, 'LuaMinifyTokenWriter.to_lines')
+        fn = P.find_function(tree, 'LuaMinifyTokenWriter._minified_chunks')
         tests = [ast.unparse(n.test) for n in P.ordered_nodes(fn) if isinstance(n, ast.If) and
                  any(isinstance(c, ast.Call) and isinstance(c.func, ast.Attribute) and c.func.attr == 'get_short_name'
                      for s in n.body for c in ast.walk(s))]
@@ -74,9 +74,9 @@ def lua_extra(mod, tree, src):
 
     return (emit('gsn_body_src', 'MinifyNameFactory.get_short_name, body (docstring and util.debug dropped)', gsn_body) +
             emit('mtw_factory_src', 'LuaMinifyTokenWriter.__init__: construction of the factory', factory_call) +
-            emit('mtw_name_call_src', 'LuaMinifyTokenWriter.to_lines: renaming of a TokName', gsn_call(0)) +
-            emit('mtw_label_call_src', 'LuaMinifyTokenWriter.to_lines: renaming of a TokLabel', gsn_call(1)) +
-            emit('mtw_branch_tests_src', 'LuaMinifyTokenWriter.to_lines: tests guarding the two calls', branch_tests))
+            emit('mtw_name_call_src', 'LuaMinifyTokenWriter._minified_chunks: renaming of a TokName', gsn_call(0)) +
+            emit('mtw_label_call_src', 'LuaMinifyTokenWriter._minified_chunks: renaming of a TokLabel', gsn_call(1)) +
+            emit('mtw_branch_tests_src', 'LuaMinifyTokenWriter._minified_chunks: tests guarding the two calls', branch_tests))
 
 
 def tool_extra(mod, tree, src):
